@@ -58,8 +58,14 @@ Theorem DEC_C13_qty_div_rate : forall (TQ : QFull DEC) (PQ : QBase DEC), QLaws P
   Rabs (dval (q_amount PQ y) - dval (rt_per_unit_multiple r) * (dval x1 / dval (rt_term_amount r))) <= half_ulp18 * (Rabs (dval (rt_per_unit_multiple r)) + 1).
 Proof. exact qty_div_rate_dec. Qed.
 
+Theorem DEC_C13_ratio_same_unit : forall (S : QBase DEC), QLaws S -> forall (q : Qt S) (u : nat),
+  In u (u_iter S) -> q_unit S q = u ->
+  exists x1, HasRefUnit_div S q (q_new S (a_one DEC) u) = Ok x1 /\ dval x1 = dval (q_amount S q).
+Proof. exact ratio_to_unit_same_dec. Qed.
+
 Print Assumptions ACC_C13_rate_mul.
 Print Assumptions ACC_C13_qty_div_rate.
 Print Assumptions ACC_C13_ratio_same_unit.
 Print Assumptions DEC_C13_rate_mul.
 Print Assumptions DEC_C13_qty_div_rate.
+Print Assumptions DEC_C13_ratio_same_unit.
